@@ -191,6 +191,9 @@ def plan_for(tier):
     plan.append((Cfg("MP3[w3:n1;w2:n2;w1:n1]", "mulp", 3, [("list", 1, 3), ("list", 2, 2), ("list", 1, 1)], cpu_count=3), 1 if q else 2, 1, None))
     plan.append((Cfg("MPv[w2,n3]", "mulp", 2, [("list", 3)], values=True), b, 1, None))
     plan.append((Cfg("MPd[w2,deque2]", "mulp", 2, [("deque", 2)]), b, 1, None))
+    # more workers than CPUs (the shared work queue holds cpu_count items) and more items than the queue holds
+    plan.append((Cfg("MP[w2,n3,cpu1]", "mulp", 2, [("list", 3)], cpu_count=1), b, 1, None))
+    plan.append((Cfg("MP[w3,n3,cpu2]", "mulp", 3, [("lazy", 3)], cpu_count=2), 1 if q else 2, 1, None))
     plan.append((Cfg("MP[cpu,n2]", "mulp", -1, [("lazy", 2)], cpu_count=2), 2 if q else 3, 1, None))
     grid = []
     if not q:
